@@ -198,6 +198,21 @@ def _numeric(rep, tier, base, r):
             rep.violation("real interpolation/basis change differs from E*C*T*P assembled from the model's matrices",
                           {"stored_N": Ns, "target_N": Nt, "stored_basis": bst, "requested_basis": breq, "particles": npart,
                            "max_rel_diff": worst}, finding_key="C14:interpolation-multi-particle" if npart > 1 else "C14:interp-numeric")
+    # interpolation must not disturb the source array (it may go on being used)
+    for bst in ("Cardinal", "Chebyshev"):
+        rngnp = np.random.default_rng(r.randint(0, 2 ** 31))
+        blk = rngnp.normal(size=(6,) * 4)
+        d = CC.write_dir(base / "src", ["A"], 7, bst, {("A", "A"): blk})
+        g7 = Grid(4, 7, 1.0, 1.0)
+        src = CollisionArray.newFromDirectory(d, g7, bst, [CC.mkpart("A")])
+        before = (np.array(src[:]).copy(), src.getBasisType())
+        for Nt in (5, 3):
+            CollisionArray.interpolateCollisionArray(src, Grid(4, Nt, 1.0, 1.0))
+        rep.case(key=("source-untouched", bst))
+        if src.getBasisType() != before[1] or not np.array_equal(np.array(src[:]), before[0]):
+            rep.violation("interpolating a collision array to a smaller grid modifies the SOURCE array (its action on distributions changes)",
+                          {"stored_basis": bst, "basis_label_after": src.getBasisType(),
+                           "max_abs_change": float(np.max(np.abs(np.array(src[:]) - before[0])))}, finding_key="C14:interpolation-mutates-source")
     # action preserved by a basis change on the same grid (any distribution)
     for N in (5, 7):
         rngnp = np.random.default_rng(r.randint(0, 2 ** 31))
